@@ -291,6 +291,10 @@ class Built:
             d = py4hw.ClockDriver(drv['name'], base=self.hw.clockDriver, enable=enout)
             GatedClock(g, 'gclk', en, enout, d)
             g.clockDriver = d
+        elif en is not None and drv.get('idiom') == 'clock_wire':
+            # a generated clock: the wire that gates the domain is also declared as its clock wire (the idiom of
+            # test/interactive/tb_VitisKernelPlatform.py); for the simulator the enable is what counts
+            g.clockDriver = py4hw.ClockDriver(drv['name'], base=self.hw.clockDriver, enable=en, wire=en)
         elif en is not None and drv.get('idiom') == 'late_enable':
             d = py4hw.ClockDriver(drv['name'], base=self.hw.clockDriver)
             g.clockDriver = d
